@@ -41,8 +41,9 @@ PASSWORDS = {
 
 REPLY_KINDS = ('OK', 'OKA', 'OKS', 'OKE', 'NO', 'AGAIN', 'MORE', 'UNL', 'BLAH')
 ACCOUNT_KINDS = ('OKA', 'OKS')      # OK replies that carry an account (OKS: a shorter one without stamp suffix)
-TAG_KINDS = ('cur', 'old', 'bare', 'trunc', 'noid', 'junk', 'zz', 'wrongserial')
-MALFORMED_TAGS = ('bare', 'trunc', 'noid', 'junk', 'zz', 'wrongserial')
+TAG_KINDS = ('cur', 'old', 'bare', 'trunc', 'noid', 'junk', 'zz', 'wrongserial', 'wideid', 'wideserial')
+# wideid / wideserial: the live tag with 2^32 added to the id / the serial - numbers that denote somebody else, whatever a 32-bit variable makes of them
+MALFORMED_TAGS = ('bare', 'trunc', 'noid', 'junk', 'zz', 'wrongserial', 'wideid', 'wideserial')
 
 
 def account_for(i, svc):
@@ -82,7 +83,7 @@ def tag_text(tagkind, i, ctx):
         return None if s is None else '%s_%x' % (h, s)
     s = ctx['cur'].get(i) or 1
     return {'bare': h, 'trunc': h + '_', 'noid': '_%x' % s, 'junk': '%s_%xx' % (h, s), 'zz': 'zz_%x' % s,
-            'wrongserial': '%s_%x' % (h, s + 7)}[tagkind]
+            'wrongserial': '%s_%x' % (h, s + 7), 'wideid': '1%08x_%x' % (i & 0xffffffff, s), 'wideserial': '%s_1%08x' % (h, s)}[tagkind]
 
 
 def render(ev, ctx):
